@@ -35,12 +35,12 @@ PROPS = {
             'CORS handling and the GrpcWebLayer wiring',
         ]),
     'C17': dict(
-        units=['webclient', 'webserver'], level='proof',
+        units=['webclient', 'webserver', 'webservice'], level='proof',
         witness=[dict(append_to='tonic-web/src/call.rs', module='replay/web_client_chunking.rs', crate='tonic-web', filter='verif_witness_web_client')],
         not_covered=[
             'decode_trailers_frame (the HTTP/1 header-block parser: iterator adapters, HeaderName/HeaderValue::try_from, HeaderMap::append) is out of reach of both verifiers: that every name keeps its full value (colons, repeated names) is NOT decided here; a native witness test (replay/web_client_chunking.rs) exercises it when a violation is reported',
             'poll_decode (binary mode) is linked in unit webclient as a callee contract and proved in unit webserver (N1/N2) over a general, possibly non-contiguous bytes::Buf (A-bytes-29)',
-            'GrpcWebClientService::call / ResponseFuture (content-type coercion of the client layer)',
+            'the client layer (GrpcWebClientService::call, its ResponseFuture, the client_request / client_response adapters) is under contract in unit webservice; GrpcWebClientLayer::layer is a constructor call',
         ]),
     'C14': dict(
         units=['reconnect'], level='proof',
@@ -71,7 +71,7 @@ PROPS = {
         units=['compression', 'decode', 'encode', 'clientglue', 'serverglue'], kani=['cfg_is_enabled', 'cfg_is_empty', 'cfg_enable', 'cfg_pop'], level='proof',
         not_covered=[
             'EnabledCompressionEncodings::{enable,pop,is_enabled,is_empty} use iterator adapters Verus rejects: their contracts are discharged by the complete Kani harnesses kani::cfg_* on the real code (all slot states x all encodings) and linked in the Verus units as callee contracts; into_accept_encoding_header_value (intractable for CBMC: 46 GB) is proved in the Verus unit with `self.inner.into_iter().flatten()` routed through an assumed std contract (A-core-21: the Some entries in slot order)',
-            'server/client plumbing that passes the right one of the two configured sets (send vs accept) into these functions (server::Grpc, client::Grpc glue) is not yet under contract',
+            'which of the two configured sets (send vs accept) is consulted where is proved in units clientglue / serverglue; Grpc::apply_compression_config (server, a for loop over a const slice) is not under contract',
             'completeness of the response-encoding picker (an offered and enabled encoding IS chosen) is not demanded by the statement and not proved (string-literal match gives arm=>equal only)',
             'str::split / str::trim semantics are the uninterpreted comma_tokens (A-std-split-01)',
         ]),
@@ -106,7 +106,7 @@ PROPS = {
         witness=[dict(append_to='tonic/src/codec/encode.rs', module='replay/encode_witness.rs', crate='tonic', filter='verif_witness_encode', features=['--features', 'gzip,deflate,zstd'])],
         units=['wire', 'encode', 'status', 'reqresp', 'compression', 'clientglue', 'serverglue'], level='proof',
         not_covered=[
-            'client prepare_request / server map_response glue is not yet under contract in this build (Status::into_http, Response::into_http, Request::into_http are)',
+            'the request head (POST, HTTP/2, te, content-type, path under the origin) is proved on the real GrpcConfig::prepare_request (unit clientglue), the response head on the real server Grpc::map_response / Status::into_http (unit serverglue, status); the generated code that picks the path string is not covered',
             'that compress() uses the coder named in grpc-encoding (FFI)', 'HTTP/2 serialisation of heads and trailers (hyper/h2)',
         ]),
     'C06': dict(
